@@ -5,7 +5,6 @@ package pkglint
 import (
 	"bytes"
 	"os"
-	"strings"
 )
 
 // C09: loading. Read-only view of what convertToLogicalLines builds, and a
@@ -32,8 +31,9 @@ func verifLines(lines *Lines) []VerifLine {
 }
 
 // VerifConvertToLogicalLines runs convertToLogicalLines(filename, rawText, mk)
-// with a fresh Logger. eofError reports whether "File must end with a newline."
-// was logged. Not safe for concurrent use (G is global).
+// with a fresh Logger. eofError reports whether an error was logged (the only
+// one this function can log is "File must end with a newline."; the wording is
+// not looked at). Not safe for concurrent use (G is global).
 func VerifConvertToLogicalLines(rawText string, mk bool) (lines []VerifLine, eofError bool, panicked string) {
 	var out bytes.Buffer
 	G.Logger = Logger{out: NewSeparatorWriter(&out), err: NewSeparatorWriter(&out)}
@@ -41,7 +41,7 @@ func VerifConvertToLogicalLines(rawText string, mk bool) (lines []VerifLine, eof
 		res := convertToLogicalLines(NewCurrPathString("verif.mk"), rawText, mk)
 		lines = verifLines(res)
 	})
-	eofError = G.Logger.errors > 0 && strings.Contains(out.String(), "File must end with a newline.")
+	eofError = G.Logger.errors > 0
 	return
 }
 
